@@ -90,6 +90,15 @@ def job_skeleton(job):
   mb = fam[skel]
   recipes = P.recipe_family(mb, 'quick' if skel.startswith('dag') else tier,
                             shipped_only=(prop == 'C08'))
+  if skel == 'tensor_feeds_three_concats':
+    # three re-quantize ops on one tensor: 2^6 paths per recipe (pairwise
+    # comparisons of symbolic scales) - shipped recipes only
+    recipes = {k: v for k, v in recipes.items() if k.startswith('shipped:')}
+  if skel.startswith('dag') and tier == 'quick':
+    # quick tier: the random DAGs run under the shipped, whole-model and
+    # single-selector recipes only
+    recipes = {k: v for k, v in recipes.items()
+               if k.split(':')[0] in ('shipped', 'all', 'only', 'optype')}
   st = Stats()
   cands, inconc, samples = [], [], []
   for rname, recipe in recipes.items():
@@ -148,7 +157,7 @@ def job_blockwise(job):
   return JobResult(job.name, st.as_dict(), cands, inconc, {}, samples=samples)
 
 
-N_QUICK_DAGS = 60
+N_QUICK_DAGS = 40
 
 
 def make_jobs(prop, tier):
